@@ -6,6 +6,9 @@
      'unsubscribe' message handlers, and just enough of open_run / create-read-save / close_run and of
      _run's error path to say which documents a tiny plan emits and when it is aborted.
    As coded (not as intended): connect returns the EXISTING cid for an equal callable.
+   Callbacks may, while a document is being delivered to them, unsubscribe a token (their own or anybody's)
+   or subscribe another callable (RE.unsubscribe / RE.subscribe called from inside the callback);
+   CallbackRegistry.process iterates over a list() SNAPSHOT of the callbacks registered when it starts.
    Weak-reference death of bound-method owners is not modelled (callables stay alive).
    No proofs in this file.  The second half is the independent specification ("live subscriptions"). *)
 From Coq Require Import String.
@@ -78,7 +81,14 @@ Definition doc_eqb (a b : doc) : bool :=
 
 (* fn_id: which object is called (what the logs are keyed by); fn_eq: its class under Python ==/hash
    (CallbackRegistry de-duplicates by equality); raises_on: the documents on which it raises *)
-Record callable := { fn_id : nat; fn_eq : nat; raises_on : doc -> bool }.
+(* what a callback may do to the subscriptions while it handles a document: RE.unsubscribe(t), or
+   RE.subscribe(g, name) for a plain callable g (given by its components; name None = 'all') *)
+Inductive cb_act := CbUnsub (t : nat) | CbSub (id eq : nat) (rz : doc -> bool) (n : option sig).
+
+(* acts: what the callable does (in order) when invoked on a document, before it returns or raises *)
+Record callable := { fn_id : nat; fn_eq : nat; raises_on : doc -> bool; acts : doc -> list cb_act }.
+Definition plain_fn (id eq : nat) (rz : doc -> bool) : callable :=
+  {| fn_id := id; fn_eq := eq; raises_on := rz; acts := fun _ => [] |}.
 
 (* concrete callables for generated cases: raise on documents matching one of the patterns *)
 Definition opt_match (o : option nat) (n : nat) : bool := match o with None => true | Some k => k =? n end.
@@ -89,8 +99,15 @@ Definition pat_match (p : sig * option nat * option nat) (d : doc) : bool :=
   | DStart run | DDescriptor run | DStop run _ => opt_match r run
   | DEvent run seq => opt_match r run && opt_match q seq
   end.
+Definition pats_fun (pats : list (sig * option nat * option nat)) : doc -> bool :=
+  fun d => existsb (fun p => pat_match p d) pats.
 Definition mk_fn (id eq : nat) (pats : list (sig * option nat * option nat)) : callable :=
-  {| fn_id := id; fn_eq := eq; raises_on := fun d => existsb (fun p => pat_match p d) pats |}.
+  plain_fn id eq (pats_fun pats).
+(* ... and perform the actions whose pattern matches the document *)
+Definition mk_fn_a (id eq : nat) (pats : list (sig * option nat * option nat))
+                   (al : list ((sig * option nat * option nat) * cb_act)) : callable :=
+  {| fn_id := id; fn_eq := eq; raises_on := pats_fun pats;
+     acts := fun d => map snd (filter (fun pa => pat_match (fst pa) d) al) |}.
 
 (* ------------------------------------------------------------------ CallbackRegistry *)
 
@@ -131,23 +148,26 @@ Definition disconnect (r : registry) (c : nat) : registry :=
 
 Inductive exn := ExCb (id : nat) | ExKeyError | ExIllegal.
 
-(* process: call the callbacks registered for the signal in dict (= cid) order; a raising callback is
-   skipped over when ignore_exceptions, otherwise its exception propagates at once *)
-Fixpoint call_all (ignore : bool) (d : doc) (fs : list callable) : list (nat * bool) * option exn :=
+(* process, generically over the state the callbacks act upon (the Dispatcher here, the live list in the
+   specification): call the given callables in order; each performs its actions on the subscriptions,
+   then returns or raises; a raising one is passed over when ignore_exceptions, otherwise its exception
+   propagates at once.  The list is the snapshot taken when process starts: changes made by the
+   callbacks do not affect who is called for THIS document. *)
+Fixpoint call_all {D : Type} (act : D -> cb_act -> D) (ignore : bool) (d : doc) (st : D) (fs : list callable)
+  : D * list (nat * bool) * option exn :=
   match fs with
-  | [] => ([], None)
+  | [] => (st, [], None)
   | f :: fs' =>
+      let st1 := fold_left act (acts f d) st in
       if raises_on f d then
-        if ignore then let '(l, x) := call_all ignore d fs' in ((fn_id f, true) :: l, x)
-        else ([(fn_id f, true)], Some (ExCb (fn_id f)))
-      else let '(l, x) := call_all ignore d fs' in ((fn_id f, false) :: l, x)
+        if ignore then let '(st2, l, x) := call_all act ignore d st1 fs' in (st2, (fn_id f, true) :: l, x)
+        else (st1, [(fn_id f, true)], Some (ExCb (fn_id f)))
+      else let '(st2, l, x) := call_all act ignore d st1 fs' in (st2, (fn_id f, false) :: l, x)
   end.
 
 Definition registered (r : registry) (s : sig) : list callable :=
   map e_fn (filter (fun e => sig_eqb (e_sig e) s) (cbs r)).
 
-Definition process (r : registry) (d : doc) : list (nat * bool) * option exn :=
-  call_all (ign r) d (registered r (doc_sig d)).
 
 (* ------------------------------------------------------------------ Dispatcher *)
 
@@ -191,6 +211,19 @@ Definition d_set_ignore (d : disp) (b : bool) : disp :=
   let r := reg d in
   {| reg := {| cid_ctr := cid_ctr r; cbs := cbs r; fmap := fmap r; ign := b; shared := shared r |};
      tok_ctr := tok_ctr d; tokmap := tokmap d |}.
+
+Definition act_name (n : option sig) : subname := match n with None => NAll | Some s => NSig s end.
+
+(* RE.unsubscribe / RE.subscribe called from inside a callback (the latter makes a permanent subscription) *)
+Definition apply_act (d : disp) (a : cb_act) : disp :=
+  match a with
+  | CbUnsub t => d_unsubscribe d t
+  | CbSub id eq rz n => fst (d_subscribe d (plain_fn id eq rz) (act_name n))
+  end.
+
+(* Dispatcher.process -> CallbackRegistry.process: `for cid, func in list(self.callbacks[sig].items())` *)
+Definition process (d : disp) (dc : doc) : disp * list (nat * bool) * option exn :=
+  call_all apply_act (ign (reg d)) dc d (registered (reg d) (doc_sig dc)).
 
 (* ------------------------------------------------------------------ tiny plans *)
 
@@ -248,14 +281,15 @@ Definition plan_action (c : cstate) (m : pmsg) : action :=
 Record emission := { em_doc : doc; em_calls : list (nat * bool) }.
 
 (* emit the documents one after the other through [proc]; stop at the first one that raises *)
-Fixpoint emit_all (proc : doc -> list (nat * bool) * option exn) (ds : list doc) : list emission * option exn :=
+Fixpoint emit_all {D : Type} (proc : D -> doc -> D * list (nat * bool) * option exn) (st : D) (ds : list doc)
+  : D * list emission * option exn :=
   match ds with
-  | [] => ([], None)
+  | [] => (st, [], None)
   | d :: ds' =>
-      let '(inv, x) := proc d in
+      let '(st1, inv, x) := proc st d in
       match x with
-      | Some e => ([{| em_doc := d; em_calls := inv |}], Some e)
-      | None => let '(ems, y) := emit_all proc ds' in ({| em_doc := d; em_calls := inv |} :: ems, y)
+      | Some e => (st1, [{| em_doc := d; em_calls := inv |}], Some e)
+      | None => let '(st2, ems, y) := emit_all proc st1 ds' in (st2, {| em_doc := d; em_calls := inv |} :: ems, y)
       end
   end.
 
@@ -326,9 +360,9 @@ Fixpoint run_plan (s : re) (c : cstate) (plan : list pmsg) (ems : list emission)
           | ASkip => run_plan s c plan' ems toks
           | AIllegal => (s, c, ems, toks, Some ExIllegal)
           | AEmit during ds after =>
-              match emit_all (process (reg (dsp s))) ds with
-              | (es, None) => run_plan s after plan' (ems ++ es) toks
-              | (es, Some e) => (s, during, ems ++ es, toks, Some e)
+              match emit_all process (dsp s) ds with
+              | (d, es, None) => run_plan {| dsp := d; temp := temp s |} after plan' (ems ++ es) toks
+              | (d, es, Some e) => ({| dsp := d; temp := temp s |}, during, ems ++ es, toks, Some e)
               end
           end
       end
@@ -342,8 +376,8 @@ Definition run_call (s0 : re) (subs : list (subname * list callable)) (plan : li
       let s2 := subscribe_temps s1 l in
       let '(s3, c, ems, toks, x) := run_plan s2 cstate0 plan [] [] in
       let failed := match x with Some _ => true | None => false end in
-      let '(es, _) := emit_all (process (reg (dsp s3))) (cleanup_docs c failed) in
-      (s3, OCall (ems ++ es) toks (match x with Some e => Raised e | None => Done end))
+      let '(d4, es, _) := emit_all process (dsp s3) (cleanup_docs c failed) in
+      ({| dsp := d4; temp := temp s3 |}, OCall (ems ++ es) toks (match x with Some e => Raised e | None => Done end))
   end.
 
 Inductive op :=
@@ -410,23 +444,36 @@ Record sub := { s_tok : nat; s_fn : callable; s_name : subname; s_temp : bool }.
 Record spec_st := {
   live : list sub;
   next_tok : nat;         (* tokens are handed out 0, 1, 2, ... one per successful subscribe *)
-  sp_ign : bool
+  sp_ign : bool;
+  sp_temps : list nat     (* temporary tokens handed out in the current call and not yet named by an in-plan
+                             unsubscribe: the only tokens an 'unsubscribe' message may name without KeyError *)
 }.
-Definition spec0 : spec_st := {| live := []; next_tok := 0; sp_ign := false |}.
+Definition spec0 : spec_st := {| live := []; next_tok := 0; sp_ign := false; sp_temps := [] |}.
 
 Definition sp_subscribe (s : spec_st) (f : callable) (n : subname) (tmp : bool) : spec_st * option nat :=
   match n with
   | NBad => (s, None)
   | _ => ({| live := live s ++ [{| s_tok := next_tok s; s_fn := f; s_name := n; s_temp := tmp |}];
-             next_tok := S (next_tok s); sp_ign := sp_ign s |}, Some (next_tok s))
+             next_tok := S (next_tok s); sp_ign := sp_ign s;
+             sp_temps := if tmp then sp_temps s ++ [next_tok s] else sp_temps s |}, Some (next_tok s))
   end.
 
 Definition sp_unsubscribe (s : spec_st) (t : nat) : spec_st :=
-  {| live := filter (fun x => negb (s_tok x =? t)) (live s); next_tok := next_tok s; sp_ign := sp_ign s |}.
+  {| live := filter (fun x => negb (s_tok x =? t)) (live s); next_tok := next_tok s; sp_ign := sp_ign s;
+     sp_temps := sp_temps s |}.
 
-(* every live subscription asking for the document's kind gets it, in subscription order *)
-Definition sp_process (s : spec_st) (d : doc) : list (nat * bool) * option exn :=
-  call_all (sp_ign s) d (map s_fn (filter (fun x => covers (s_name x) (doc_sig d)) (live s))).
+(* what a callback does to the subscriptions: end the one with that token / make a permanent one *)
+Definition sp_apply_act (s : spec_st) (a : cb_act) : spec_st :=
+  match a with
+  | CbUnsub t => sp_unsubscribe s t
+  | CbSub id eq rz n => fst (sp_subscribe s (plain_fn id eq rz) (act_name n) false)
+  end.
+
+(* every subscription that is live WHEN THE DOCUMENT IS EMITTED and asks for its kind gets it, exactly once,
+   in subscription order - whatever the callbacks do to the subscriptions while it is being delivered
+   (one unsubscribed meanwhile still gets this document, one subscribed meanwhile gets the next ones) *)
+Definition sp_process (s : spec_st) (d : doc) : spec_st * list (nat * bool) * option exn :=
+  call_all sp_apply_act (sp_ign s) d s (map s_fn (filter (fun x => covers (s_name x) (doc_sig d)) (live s))).
 
 Fixpoint sp_subscribe_temps (s : spec_st) (l : list (subname * callable)) : spec_st :=
   match l with
@@ -446,18 +493,20 @@ Fixpoint sp_run_plan (s : spec_st) (c : cstate) (plan : list pmsg) (ems : list e
           | (s1, None) => (s1, c, ems, toks, Some ExKeyError)
           end
       | PUnsub t =>
-          (* the subscription with that token ends; only temporary ones of this call may be named *)
-          if existsb (fun x => (s_tok x =? t) && s_temp x) (live s)
-          then sp_run_plan (sp_unsubscribe s t) c plan' ems toks
-          else (sp_unsubscribe s t, c, ems, toks, Some ExKeyError)
+          (* the subscription with that token ends; only temporary tokens of this call may be named, once *)
+          let s1 := sp_unsubscribe s t in
+          if existsb (Nat.eqb t) (sp_temps s)
+          then sp_run_plan {| live := live s1; next_tok := next_tok s1; sp_ign := sp_ign s1;
+                              sp_temps := filter (fun x => negb (x =? t)) (sp_temps s) |} c plan' ems toks
+          else (s1, c, ems, toks, Some ExKeyError)
       | _ =>
           match plan_action c m with
           | ASkip => sp_run_plan s c plan' ems toks
           | AIllegal => (s, c, ems, toks, Some ExIllegal)
           | AEmit during ds after =>
-              match emit_all (sp_process s) ds with
-              | (es, None) => sp_run_plan s after plan' (ems ++ es) toks
-              | (es, Some e) => (s, during, ems ++ es, toks, Some e)
+              match emit_all sp_process s ds with
+              | (s1, es, None) => sp_run_plan s1 after plan' (ems ++ es) toks
+              | (s1, es, Some e) => (s1, during, ems ++ es, toks, Some e)
               end
           end
       end
@@ -465,7 +514,7 @@ Fixpoint sp_run_plan (s : spec_st) (c : cstate) (plan : list pmsg) (ems : list e
 
 (* temporary subscriptions end with their call *)
 Definition sp_end_call (s : spec_st) : spec_st :=
-  {| live := filter (fun x => negb (s_temp x)) (live s); next_tok := next_tok s; sp_ign := sp_ign s |}.
+  {| live := filter (fun x => negb (s_temp x)) (live s); next_tok := next_tok s; sp_ign := sp_ign s; sp_temps := [] |}.
 
 Definition sp_run_call (s0 : spec_st) (subs : list (subname * list callable)) (plan : list pmsg) : spec_st * obs :=
   match normalize_subs subs with
@@ -474,8 +523,8 @@ Definition sp_run_call (s0 : spec_st) (subs : list (subname * list callable)) (p
       let s2 := sp_subscribe_temps s0 l in
       let '(s3, c, ems, toks, x) := sp_run_plan s2 cstate0 plan [] [] in
       let failed := match x with Some _ => true | None => false end in
-      let '(es, _) := emit_all (sp_process s3) (cleanup_docs c failed) in
-      (sp_end_call s3, OCall (ems ++ es) toks (match x with Some e => Raised e | None => Done end))
+      let '(s4, es, _) := emit_all sp_process s3 (cleanup_docs c failed) in
+      (sp_end_call s4, OCall (ems ++ es) toks (match x with Some e => Raised e | None => Done end))
   end.
 
 Definition sp_step (s : spec_st) (o : op) : spec_st * obs :=
@@ -486,9 +535,9 @@ Definition sp_step (s : spec_st) (o : op) : spec_st * obs :=
       | (s1, None) => (s1, OErr ExKeyError)
       end
   | Unsubscribe t => (sp_unsubscribe s t, ONone)
-  | SetIgnore b => ({| live := live s; next_tok := next_tok s; sp_ign := b |}, ONone)
+  | SetIgnore b => ({| live := live s; next_tok := next_tok s; sp_ign := b; sp_temps := sp_temps s |}, ONone)
   | RunCall subs plan => sp_run_call s subs plan
-  | UnsubscribeAll | Reset => ({| live := []; next_tok := next_tok s; sp_ign := sp_ign s |}, ONone)
+  | UnsubscribeAll | Reset => ({| live := []; next_tok := next_tok s; sp_ign := sp_ign s; sp_temps := sp_temps s |}, ONone)
   end.
 
 Fixpoint sp_run_from (s : spec_st) (h : list op) : spec_st * list obs :=
@@ -582,8 +631,10 @@ Fixpoint policy_ok_from (ignore : bool) (h : list op) (os : list obs) : bool :=
   end.
 
 (* the callables of a history made non-raising, and observations without the raise flags *)
+Definition quiet_act (a : cb_act) : cb_act :=
+  match a with CbSub id eq _ n => CbSub id eq (fun _ => false) n | _ => a end.
 Definition quiet_fn (f : callable) : callable :=
-  {| fn_id := fn_id f; fn_eq := fn_eq f; raises_on := fun _ => false |}.
+  {| fn_id := fn_id f; fn_eq := fn_eq f; raises_on := fun _ => false; acts := fun d => map quiet_act (acts f d) |}.
 Definition quiet_pmsg (m : pmsg) : pmsg := match m with PSub f n => PSub (quiet_fn f) n | _ => m end.
 Definition quiet_op (o : op) : op :=
   match o with
